@@ -165,4 +165,125 @@ example : eval 10 { callLimit := some 1 } frF (.call "f" [.int 5, boom]) false {
   (user_call_arg_propagates { callLimit := some 1 } frF 5 [.int 5] [] boom {} {} {} [.int 5] "boom" false
     fSub [] [] "f" (.cons rfl rfl (.nil _ _)) rfl).2.1 rfl
 
+/-! ## 2. Which natives can see an error value -/
+
+/-- `if`, `and`, `or`, `display`: an error value in the first (always evaluated) argument is the
+result, in the state after that argument — the other arguments are not evaluated. -/
+theorem nonhandlers_propagate (n : Nat) (cfg : Cfg) (fr : Frame) (a b c : Expr) (tail : Bool)
+    (st st' : St) (m : String) (h : eval n cfg fr a false st = (.val (.err m), st')) :
+    builtin (n + 1) cfg fr "if" [a, b, c] tail st = (.val (.err m), st') ∧
+    builtin (n + 1) cfg fr "and" [a, b] tail st = (.val (.err m), st') ∧
+    builtin (n + 1) cfg fr "or" [a, b] tail st = (.val (.err m), st') ∧
+    builtin (n + 1) cfg fr "display" [a] tail st = (.val (.err m), st') := by
+  simp [builtin, h]
+
+/-- The two handlers: `if_error(a, b)` with `a` an error value is `b` (evaluated in the state after
+`a`, tail slot forwarded), with `a` a non-error value is that value and `b` is not evaluated;
+`is_error(a)` is the boolean "`a` is an error value". -/
+theorem handlers_inspect (n : Nat) (cfg : Cfg) (fr : Frame) (a b : Expr) (tail : Bool) (st st' : St) :
+    (∀ m, eval n cfg fr a false st = (.val (.err m), st') →
+      builtin (n + 1) cfg fr "if_error" [a, b] tail st = eval n cfg fr b tail st') ∧
+    (∀ v, eval n cfg fr a false st = (.val v, st') → v.isErr = false →
+      builtin (n + 1) cfg fr "if_error" [a, b] tail st = (.val v, st')) ∧
+    (∀ v, eval n cfg fr a false st = (.val v, st') →
+      builtin (n + 1) cfg fr "is_error" [a] tail st = (.val (.bool v.isErr), st')) := by
+  refine ⟨?_, ?_, ?_⟩
+  · intro m h; simp [builtin, h]
+  · intro v h hv; cases v <;> simp_all [builtin, Val.isErr]
+  · intro v h; simp [builtin, h]
+
+/-- The short-circuit natives evaluate the selected argument only: the result is literally the
+evaluation of the selected argument in the state after the first one, whatever the other
+argument is (it contributes neither output nor calls nor errors). -/
+theorem short_circuit_skips (n : Nat) (cfg : Cfg) (fr : Frame) (c a b : Expr) (tail : Bool) (st st' : St) :
+    (eval n cfg fr c false st = (.val (.bool true), st') →
+      builtin (n + 1) cfg fr "if" [c, a, b] tail st = eval n cfg fr a tail st' ∧
+      builtin (n + 1) cfg fr "and" [c, b] tail st = eval n cfg fr b tail st' ∧
+      builtin (n + 1) cfg fr "or" [c, b] tail st = (.val (.bool true), st')) ∧
+    (eval n cfg fr c false st = (.val (.bool false), st') →
+      builtin (n + 1) cfg fr "if" [c, a, b] tail st = eval n cfg fr b tail st' ∧
+      builtin (n + 1) cfg fr "and" [c, b] tail st = (.val (.bool false), st') ∧
+      builtin (n + 1) cfg fr "or" [c, b] tail st = eval n cfg fr b tail st') := by
+  constructor <;> intro h <;> simp [builtin, h]
+
+/-- Only `if_error` and `is_error` turn an error value of their first argument into something
+else: for every native `f` (special form, strict native or unknown name) and every argument list,
+if the first argument evaluates (with whatever fuel) to the error value `.err m` and the native
+call returns a value at all, then either `f` is one of the two handlers or the value returned is
+that very error in the state right after the first argument. -/
+theorem only_handlers_inspect (n j : Nat) (cfg : Cfg) (fr : Frame) (f : String) (a : Expr) (rest : List Expr)
+    (tail : Bool) (st st' st'' : St) (m : String) (v : Val)
+    (hcall : builtin (n + 1) cfg fr f (a :: rest) tail st = (.val v, st''))
+    (ha : eval j cfg fr a false st = (.val (.err m), st')) :
+    f = "if_error" ∨ f = "is_error" ∨ (v = .err m ∧ st'' = st') := by
+  -- whatever fuel the native gives to its first argument, the outcome is `.err m` or out of fuel
+  have key : ∀ i, eval i cfg fr a false st = (.val (.err m), st') ∨ ∃ s, eval i cfg fr a false st = (.oof, s) := by
+    intro i
+    rcases hi : eval i cfg fr a false st with ⟨r, s⟩
+    by_cases hr : r = .oof
+    · subst hr; exact .inr ⟨s, rfl⟩
+    · obtain ⟨h1, h2⟩ := eval_det hi ha hr (by simp)
+      subst h1; subst h2; exact .inl rfl
+  rcases builtin_shape f (a :: rest) with ⟨c, x, y, rfl, hargs⟩ | ⟨x, y, rfl, hargs⟩ | ⟨x, y, rfl, hargs⟩ |
+    ⟨x, y, rfl, hargs⟩ | ⟨x, rfl, hargs⟩ | ⟨x, rfl, hargs⟩ | hd
+  · cases hargs
+    rcases key n with h | ⟨s, h⟩ <;> simp_all [builtin]
+  · cases hargs
+    rcases key n with h | ⟨s, h⟩ <;> simp_all [builtin]
+  · cases hargs
+    rcases key n with h | ⟨s, h⟩ <;> simp_all [builtin]
+  · exact .inl rfl
+  · exact .inr (.inl rfl)
+  · cases hargs
+    rcases key n with h | ⟨s, h⟩ <;> simp_all [builtin]
+  · rw [hd] at hcall
+    unfold strictCall at hcall
+    split at hcall
+    · cases n with
+      | zero => simp [evalList] at hcall
+      | succ i =>
+        rcases key i with h | ⟨s, h⟩ <;> simp_all [evalList]
+    · simp at hcall
+
+
+/-- `if_error(error("boom"), 3)` is `3`, `is_error(error("boom"))` is `true`; `and(error("boom"), display(7))`
+is the error and nothing is displayed; `if(true, 1, display(7))` is `1` and nothing is displayed -/
+example : builtin 6 {} fr0 "if_error" [boom, .int 3] false {} = (.val (.int 3), {}) :=
+  ((handlers_inspect 5 {} fr0 boom (.int 3) false {} {}).1 "boom" rfl).trans rfl
+example : builtin 6 {} fr0 "is_error" [boom] false {} = (.val (.bool true), {}) :=
+  (handlers_inspect 5 {} fr0 boom boom false {} {}).2.2 _ rfl
+example : builtin 6 {} fr0 "and" [boom, disp7] false {} = (.val (.err "boom"), {}) :=
+  (nonhandlers_propagate 5 {} fr0 boom disp7 disp7 false {} {} "boom" rfl).2.1
+example : builtin 6 {} fr0 "if" [.bool true, .int 1, disp7] false {} = (.val (.int 1), {}) :=
+  (((short_circuit_skips 5 {} fr0 (.bool true) (.int 1) disp7 false {} {}).1 rfl).1).trans rfl
+
+/-! ## 4. `display` -/
+
+/-- `display` of an error value writes nothing and returns the error; `display` of a printable value
+appends exactly one line (its text) and returns the value; in every other case (violation, stuck,
+out of fuel, unprintable value) it writes nothing. -/
+theorem display_error_silent (n : Nat) (cfg : Cfg) (fr : Frame) (a : Expr) (tail : Bool) (st st' : St) :
+    (∀ m, eval n cfg fr a false st = (.val (.err m), st') →
+      builtin (n + 1) cfg fr "display" [a] tail st = (.val (.err m), st')) ∧
+    (∀ v s, eval n cfg fr a false st = (.val v, st') → toStr v = some s →
+      builtin (n + 1) cfg fr "display" [a] tail st = (.val v, { st' with out := st'.out ++ [s] })) ∧
+    (∀ r, eval n cfg fr a false st = (r, st') → (∀ v, r = .val v → toStr v = none) →
+      (builtin (n + 1) cfg fr "display" [a] tail st).2 = st') := by
+  refine ⟨?_, ?_, ?_⟩
+  · intro m h; simp [builtin, h]
+  · intro v s h hs
+    cases v <;> simp_all [builtin, toStr]
+  · intro r h hr
+    rcases r with v | _ | _ | _ | _
+    · have := hr v rfl
+      cases v <;> simp_all [builtin, toStr]
+    all_goals simp [builtin, h]
+
+
+/-- `display(error("boom"))` leaves the output empty; `display(7)` writes the line `7` -/
+example : builtin 6 {} fr0 "display" [boom] false {} = (.val (.err "boom"), { out := [] }) :=
+  (display_error_silent 5 {} fr0 boom false {} {}).1 "boom" rfl
+example : builtin 6 {} fr0 "display" [.int 7] false {} = (.val (.int 7), { out := ["7"] }) :=
+  (display_error_silent 5 {} fr0 (.int 7) false {} {}).2.1 (.int 7) "7" rfl (by decide)
+
 end XrayModel.C06
